@@ -47,7 +47,7 @@ def behOf (t : BehTable) : Behaviour := fun h n =>
 
 def showEv : Ev → String
   | .enter key h n fl _ => s!" +{h}.{n}.{key}.{fl}"
-  | .leave r => s!" -{r}"
+  | .leave _ _ r => s!" -{r}"
   | .actBegin i => " {" ++ toString i
   | .actEnd => " }"
   | .bound _ id _ _ _ => s!" ={id}"
